@@ -444,6 +444,9 @@ pub fn run_session(w: &World, s: &Session) -> Result<Outcome, Fail> {
             if got != full {
                 return Err(diff_fail(&tag, &got, &full, &stderr_text, Some(&m)));
             }
+            // everything is there now, but it was not while the client kept its side open: the bridge
+            // held bytes back until the session ended (judged by repetition)
+            return Ok(Outcome::Slow(format!("{}; the missing bytes arrived only after the client had closed its side", m)));
         }
         if got != full {
             return Err(diff_fail(&tag, &got, &full, &stderr_text, None));
